@@ -49,7 +49,50 @@ def run(F, tier, res):
         for i, c in F.calls(p):
             if callee_of(c).endswith('DerefMut>::deref_mut') and _is_cp_guard(callee_full(c)):
                 writers.setdefault(p, []).append(i)
-    res.rule('C20.census', len(lockers) + len(writers), 5,
+    # ---- locked-region helpers: a function that locks CALLER, hands the `&mut CallingProcess` obtained from the guard to a closure
+    # parameter and notifies afterwards is not itself the writer: the closures passed to it are, and they run under its lock
+    virtual = {}
+    for w in list(writers):
+        inv = []
+        for i, c in F.calls(w):
+            cal = callee_of(c)
+            if cal.endswith(('FnOnce>::call_once', 'FnMut>::call_mut', 'Fn>::call')) or 'ops::FnOnce' in cal or 'ops::FnMut' in cal or 'ops::Fn<' in cal:
+                if any(r[0] == 'call' and r[1].endswith('DerefMut>::deref_mut') and _is_cp_guard(callee_full(r[4])) for a in c['args'] for r in F.trace(w, a, deep=True)):
+                    inv.append(i)
+        if not inv:
+            continue
+        found = False
+        for x in F.fn_bodies:
+            for j, c in F.calls(x):
+                if callee_of(c) != w and (c.get('resolved') or '') != w:
+                    continue
+                for a in c['args']:
+                    for r in F.trace(x, a):
+                        if r[0] == 'agg' and r[1][0] == 'closure' and r[1][1] in F.fn_bodies:
+                            cl = r[1][1]
+                            mir = F.bodies[cl]['mir']
+                            cp_params = [k for k in range(1, mir['arg_count'] + 1) if 'CallingProcess' in mir['locals'][k] and mir['locals'][k].startswith('&mut')]
+                            wbl = []
+                            for bi, blk in enumerate(mir['blocks']):
+                                if blk['cleanup']:
+                                    continue
+                                for st in blk['s']:
+                                    if st[0] == 'assign' and st[1]['p'] and st[1]['p'][0][0] == 'deref' and st[1]['l'] in cp_params:
+                                        wbl.append(bi)
+                                t = blk['t']
+                                if t[0] == 'call' and t[1]['dest']['p'] and t[1]['dest']['p'][0][0] == 'deref' and t[1]['dest']['l'] in cp_params:
+                                    wbl.append(bi)
+                                if t[0] == 'drop' and t[1]['p'] and t[1]['p'][0][0] == 'deref' and t[1]['l'] in cp_params:
+                                    pass
+                            virtual[cl] = {'helper': w, 'inv': inv, 'owner': x}
+                            writers[cl] = sorted(set(wbl))
+                            found = True
+        if found:
+            del writers[w]
+
+    def owner(fn):
+        return fn.split('::{closure')[0]
+    res.rule('C20.census', len(lockers) + len(writers), 3,
              'functions that lock CALLER (%s) and functions that write through its guard (%s)' % (
                  sorted(lockers), sorted(writers)), samples=sorted(lockers))
 
@@ -83,6 +126,10 @@ def run(F, tier, res):
         loads = [(i, c) for i, c in F.calls(w) if callee_of(c).endswith('Atomic::<usize>::load')]
         locks = lockers.get(w, [])
         guard_drops = [i for i, b in enumerate(blocks) if not b['cleanup'] and b['t'][0] == 'drop' and _is_cp_guard(b['t'][4])]
+        if w in virtual:
+            # the closure runs between the helper's lock and its guard drop: lock at entry, guard dropped after each return
+            locks = [0]
+            guard_drops = [i for i, b in enumerate(blocks) if not b['cleanup'] and b['t'][0] == 'return']
         if stores:
             # known-writer: G3
             n_g3 += 1
@@ -178,8 +225,20 @@ def run(F, tier, res):
     known_writers = [w for w in writers if w not in thread_writers]
     thread_always_notifies = True
     n_g2 = 0
+    def helper_notifies(w):
+        h = virtual[w]['helper']
+        Sh = F.cfg(h)
+        starts = [x for ib in virtual[w]['inv'] for x in Sh.get(ib, [])]
+        return not notify_free_return(h, starts)
     for w in thread_writers:
         n_g2 += 1
+        if w in virtual:
+            if not helper_notifies(w):
+                res.violate('G2', 'fn=%s;after-write' % w, 'the helper that runs this update under the lock does not notify_all on every path after it: a waiter sleeps forever',
+                            where=F.bodies[virtual[w]['helper']]['mir']['span']['at'])
+            if notify_free_return(virtual[w]['helper'], [0]):
+                thread_always_notifies = False
+            continue
         if notify_free_return(w, writers[w], skip_first=True):
             res.violate('G2', 'fn=%s;after-write' % w,
                         'a path through the store of the determined process has no Condvar::notify_all between lock and return: a waiter sleeps forever',
@@ -188,6 +247,11 @@ def run(F, tier, res):
             thread_always_notifies = False
     for w in known_writers:
         n_g2 += 1
+        if w in virtual:
+            if not helper_notifies(w) and not thread_always_notifies:
+                res.violate('G2', 'fn=%s;after-write' % w, 'neither the helper that runs this update nor the background thread notifies after the value is published',
+                            where=F.bodies[virtual[w]['helper']]['mir']['span']['at'])
+            continue
         if notify_free_return(w, writers[w], skip_first=True) and not thread_always_notifies:
             res.violate('G2', 'fn=%s;after-write' % w,
                         'neither this writer nor the background thread (on its no-write path) notifies after the value is published',
@@ -342,7 +406,8 @@ def run(F, tier, res):
     n_g8 = 0
     for p in F.fn_bodies:
         S = F.cfg(p)
-        set_bbs = [i for i, c in F.calls(p) if callee_of(c) in known_writers]
+        kw_fns = set(known_writers) | {owner(w) for w in known_writers}
+        set_bbs = [i for i, c in F.calls(p) if callee_of(c) in kw_fns]
         if not set_bbs:
             continue
         for i, c in F.calls(p):
